@@ -39,6 +39,7 @@ const coldT = baseT - 30*24*3600*1_000_000_000
 const coldWriter = 3
 const extraOpeners = 4
 const killAfterIdle = "kill-after-idle-shard-flush"
+const killAfterSlowFlush = "kill-after-slow-flush"
 const afterIdleSuffix = "+after-idle-shard-flush"
 
 // Fault kinds that use the hook points inside the raft node (lib/raftconn/node.go, tag verif):
@@ -577,6 +578,35 @@ func (rn *runner) runSchedule(sc schedule, worker int) {
 				pi.FaultTick[0] = tick()
 				cl.Stores[victim].Kill()
 				c.Distinct("kill-during-flush-point", pi.FlushPoint)
+			case killAfterSlowFlush:
+				// a forced flush that takes long (parked 1.2 s after the index flush, i.e. after the
+				// memtable switch and before the data files exist) while the writers go on: the store
+				// applies committed entries into the NEW memtable during the flush. The flush then
+				// completes (raft snapshot taken), the point is cleared, and the store is SIGKILLed
+				// before any further flush: what was applied during the flush exists only in the raft
+				// log and must be replayed after the restart
+				point := "flush-after-index-flush"
+				pi.FlushPoint = point + "(flush completed)"
+				applied0 := pointHits(cl, victim, pointAfterPublish)
+				if cl.StoreCtl(victim, "POST", "/verif/points", point+"=sleep(1200)") == nil {
+					err := cl.StoreCtl(victim, "POST", "/verif/flush", "")
+					_ = cl.StoreCtl(victim, "POST", "/verif/points", "")
+					if err != nil {
+						pi.FlushPoint += "(flush request failed)"
+					}
+					if a1 := pointHits(cl, victim, pointAfterPublish); a1 >= 0 && applied0 >= 0 {
+						d := a1 - applied0
+						c.Count("kill-after-slow-flush:hand-overs-of-committed-entries-while-the-flush-ran", d)
+						if d >= 2 {
+							c.Distinct("kill-after-slow-flush", "entries-applied-during-the-flush>=2")
+						}
+					}
+				} else {
+					pi.FlushPoint += "(control port unreachable: plain kill)"
+				}
+				time.Sleep(time.Duration(50+r.IntN(250)) * time.Millisecond)
+				pi.FaultTick[0] = tick()
+				cl.Stores[victim].Kill()
 			case killAfterIdle:
 				// one acknowledged point into the second shard of the partition, which is then left
 				// idle while the writers keep the first shard busy: after write-cold-duration (5 s)
@@ -691,6 +721,9 @@ func (rn *runner) runSchedule(sc schedule, worker int) {
 		nOps := c.Pick(25, 40)
 		if f.Kind == killAfterIdle {
 			nOps = 120 // the writers must stay busy for the 7.5 s the idle shard needs to be flushed
+		}
+		if f.Kind == killAfterSlowFlush {
+			nOps = c.Pick(60, 80) // the writers must be active during the 1.2 s the flush is parked
 		}
 		if f.Kind == killBeforeApply {
 			nOps = c.Pick(45, 60) // the writers must still be active when the armed hit of the point is reached
@@ -1067,7 +1100,7 @@ func compress(kops []op) []map[string]any {
 // ones keep the default configuration).
 func genSchedule(r *rand.Rand, idx, n int, withIdle, withRaftPoints bool) schedule {
 	sc := schedule{Index: idx}
-	kinds := []string{"kill", "kill", "pause", "kill-during-flush"}
+	kinds := []string{"kill", "kill", "pause", "kill-during-flush", killAfterSlowFlush}
 	if withIdle {
 		kinds = append(kinds, killAfterIdle)
 	}
@@ -1115,7 +1148,7 @@ func raftPointSchedule(idx int) schedule {
 
 func main() {
 	c := vf.New("C05", "fault_enumeration")
-	c.SetRule("seeded nemesis schedules against a real 3 meta / 3 store / 1 sql cluster (ha-policy replication, REPLICAS 3): per fault a concurrent phase (3 writers with unique values incl. overwrites, 2 readers) during which one store — the raft leader or a follower, as read from the control port — is SIGKILLed, killed during a forced flush, killed by itself inside the raft Ready loop between saving the commit index and handing the committed entries to the apply goroutine (kill-before-apply), muted as raft leader while a burst of writes is proposed and then SIGKILLed so that it restarts with a log tail nobody else has (unreplicated-tail; after the rejoin acknowledged writes are sent one by one into the formerly used log slots), or SIGSTOPped; quiescent verification with one store down (a write acknowledged within bounded retries, six identical full reads); heal (restart / SIGCONT), traffic during catch-up, quiescent verification again; the next fault then hits a possibly different store. Oracle: porcupine register check per (series,timestamp) with lost-reply operations kept open; a wrong history is classified by where the wrong reads were given and by the history of the replica that served them; distinct non-trivial = distinct (schedule, fault kind, role of the victim, store)")
+	c.SetRule("seeded nemesis schedules against a real 3 meta / 3 store / 1 sql cluster (ha-policy replication, REPLICAS 3): per fault a concurrent phase (3 writers with unique values incl. overwrites, 2 readers) during which one store — the raft leader or a follower, as read from the control port — is SIGKILLed, killed during a forced flush, killed shortly after a slowed-down forced flush during which it went on applying entries (kill-after-slow-flush), killed by itself inside the raft Ready loop between saving the commit index and handing the committed entries to the apply goroutine (kill-before-apply), muted as raft leader while a burst of writes is proposed and then SIGKILLed so that it restarts with a log tail nobody else has (unreplicated-tail; after the rejoin acknowledged writes are sent one by one into the formerly used log slots), or SIGSTOPped; quiescent verification with one store down (a write acknowledged within bounded retries, six identical full reads); heal (restart / SIGCONT), traffic during catch-up, quiescent verification again; the next fault then hits a possibly different store. Oracle: porcupine register check per (series,timestamp) with lost-reply operations kept open; a wrong history is classified by where the wrong reads were given and by the history of the replica that served them; distinct non-trivial = distinct (schedule, fault kind, role of the victim, store)")
 	c.Assume("at most one store is down or paused at any time; meta and sql nodes are not faulted; no network partitions between live processes (the unreplicated-tail fault holds back the outgoing raft messages of ONE process, the leader's, for less than 3 s before that process is killed)")
 	c.Assume("schedules with an unreplicated-tail fault run with coordinator.shard-writer-timeout = " + tailWriteBudget + " instead of 10 s (ts-sql then does not propose the burst again on the new leader); all other schedules run with the default configuration")
 	c.Assume("bounded liveness: 'writes accepted again' is judged within 80 retries (0.5 s apart, watchdog 150 s); exceeding it is inconclusive, not a violation")
@@ -1149,6 +1182,10 @@ func main() {
 			sc.Faults[0] = fault{Kind: "kill-during-flush", Target: "leader", Point: "flush-after-index-flush"}
 			sc.Faults[1] = fault{Kind: "kill", Target: "leader"}
 			sc.Faults[2] = fault{Kind: "kill", Target: "follower"}
+			// the leader survives a slow flush during which it applied entries, is killed before
+			// its next flush; after it rejoined its successor is killed (the rejoined store serves)
+			sc.Faults[3] = fault{Kind: killAfterSlowFlush, Target: "leader"}
+			sc.Faults = append(sc.Faults[:4], fault{Kind: "kill", Target: "leader"})
 		}
 		if i == 1 {
 			// second schedule (thorough): the leader dies after only the idle shard of its
@@ -1179,6 +1216,8 @@ func main() {
 		{"fault(kind|raft-role-of-victim|owns-master-partition)", "kill|leader|master"},
 		{"fault(kind|raft-role-of-victim|owns-master-partition)", "kill|follower|not-master"},
 		{"history-of-the-replica-serving-with-one-store-down", "restarted-after-sigkill-during-flush"},
+		{"fault(kind|raft-role-of-victim|owns-master-partition)", killAfterSlowFlush + "|leader|master"},
+		{"kill-after-slow-flush", "entries-applied-during-the-flush>=2"},
 		{"fault(kind|raft-role-of-victim|owns-master-partition)", killBeforeApply + "|follower|not-master"},
 		{"fault(kind|raft-role-of-victim|owns-master-partition)", killBeforeApply + "|leader|master"},
 		{"fault(kind|raft-role-of-victim|owns-master-partition)", unreplTail + "|leader|master"},
